@@ -55,8 +55,13 @@ CHECKS['C07'] = dict(
    note='file layers (json, PyYAML) enter as assumed functions validated through real files; round-trip theorems over the document model are in progress (level_note updated when proved); known finding KF-C07-1 (duplicate attacker ids) is replayed on every run',
    technique='Lean 4 model + differential correspondence through real files (round-trip theorems pending)',
    design='C07')
+CHECKS['C06'] = dict(
+   text='Theorems (Props/C06.lean): the class table of the model is exactly the declarations (defenses = own and inherited with default 1 iff Enabled; one association class per declaration with its fields, declared types and maxima; distinct class names for distinct (name, left, right) under the stated naming hypothesis, with proved counterexamples otherwise); Valid (defenses in range, members subtype-correct, counts within maxItems, no asset twice in a field, no link twice) is preserved by every operation over every history; each of the invalid constructions is rejected, and an association passing all checks is accepted. Tied to LanguageClassesFactory / pjs / _validate_association by class inventories and histories of valid and invalid constructions on the real library.',
+   note='pjs validation is modelled by guard functions (assumption, exercised through the real library); per-object multiplicity; naming hypothesis for class-name distinctness',
+   technique='Lean 4 proof (validity invariant, rejection lemmas) + differential correspondence through the real pjs classes',
+   design='C06')
 NOT_YET = {}
-PENDING = {'C05', 'C07'}   # harness exists, theorems in progress: not claimed until they check
+PENDING = {'C07'}   # harness exists, theorems in progress: not claimed until they check
 
 def main():
     for k in PENDING: CHECKS.pop(k, None)
